@@ -370,6 +370,10 @@ def _run_sharded(argv, lines, env=None, timeout=600):
     return result
 
 
+PROBE_DIFFS = []          # cases after which the harness's fixed probe changed (process-wide state was modified)
+PROBE_CASES = [0]
+
+
 def run_go(cases, binary=None):
     lines = [json.dumps(c) for c in cases]
     outs = _run_sharded([binary or HARNESS_BIN], lines, env=GOENV)
@@ -379,6 +383,9 @@ def run_go(cases, binary=None):
             res.append(json.loads(o))
         except Exception:
             res.append({"id": c.get("id"), "harnessCrash": (o or "")[:500]})
+        PROBE_CASES[0] += 1
+        if isinstance(res[-1], dict) and res[-1].get("probeDiff") and len(PROBE_DIFFS) < 20:
+            PROBE_DIFFS.append((c, res[-1]["probeDiff"]))
     return res
 
 
